@@ -151,3 +151,81 @@ contract("buidl.compactfilter.CFilterMessage.parse", props=("C19",),
          ensures=["implies(returns(), result.filter_type == ft)", "implies(returns(), result.block_hash == bh)",
                   "implies(returns(), result.filter_bytes == fb)", "implies(returns(), s.read() == tail)"],
          gen=_gen_cfilter)
+
+
+# ---------------------------------------------------------------------------- cfcheckpt.parse for EVERY number of headers
+class _CfcheckptSetup:
+    def __call__(self, m, env):
+        from verif.pyvc.values import HStream, as_chunks
+        from verif.pyvc.interp import Frame
+        env["xs"] = m.make_sym("xs", symlist.symvalues("cfh", "bytes:32", max_len=2**32))
+        fr = Frame(dict(env, spec=REG.spec_module), REG.spec_globals)
+        v = m.eval_spec("spec.listser.cfcheckpt_msg_any(ft, stop, xs) + tail", fr)
+        env["s"] = m.p.alloc(HStream(as_chunks(v)))
+
+    def conc(self, env, glob):
+        import io
+        env["xs"] = list(env["xs"])
+        env["s"] = io.BytesIO(glob["spec"].listser.cfcheckpt_msg_any(env["ft"], env["stop"], env["xs"]) + env["tail"])
+
+
+def _gen_cfcp_any(rng, tier):
+    for n in (0, 1, 2, 3, 252, 253, 254, 300):
+        yield {"ft": rng.randrange(256), "stop": rand_bytes(rng, 32), "tail": rand_bytes(rng, rng.randrange(3)),
+               "xs": [rand_bytes(rng, 32) for _ in range(n)]}
+
+
+contract("buidl.compactfilter.CFCheckPointMessage.parse#anylen", props=("C19",),
+         ghost={"ft": ("int", 0, 255), "stop": H32, "tail": "bytes"},
+         params={"cls": ("const_cls", "buidl.compactfilter.CFCheckPointMessage")},
+         setup=_CfcheckptSetup(), args=["cls", "s"], bcat_unit=True,
+         ensures=["returns()", "result.filter_type == ft", "result.stop_hash == stop",
+                  "result.filter_headers == xs", "s.read() == tail"],
+         invariants={1: {"inv": ["stream_is(s, spec.listser.concat_from(xs, _k) + tail)", "filter_headers == xs[:_k]"],
+                         "index": "_k"}},
+         gen=_gen_cfcp_any)
+
+
+# ---------------------------------------------------------------------------- cfheaders.parse for EVERY number of filter hashes
+class _CfheadersSetup:
+    def __call__(self, m, env):
+        from verif.pyvc.values import HStream, as_chunks
+        from verif.pyvc.interp import Frame
+        env["xs"] = m.make_sym("xs", symlist.symvalues("cfhash", "bytes:32", max_len=2**32))
+        fr = Frame(dict(env, spec=REG.spec_module), REG.spec_globals)
+        v = m.eval_spec("spec.listser.cfheaders_msg_any(ft, stop, prev, xs) + tail", fr)
+        env["s"] = m.p.alloc(HStream(as_chunks(v)))
+
+    def conc(self, env, glob):
+        import io
+        env["xs"] = list(env["xs"])
+        env["s"] = io.BytesIO(glob["spec"].listser.cfheaders_msg_any(env["ft"], env["stop"], env["prev"], env["xs"]) + env["tail"])
+
+
+def _gen_cfh_any(rng, tier):
+    for n in (0, 1, 2, 3, 252, 253, 254, 300):
+        yield {"ft": rng.randrange(256), "stop": rand_bytes(rng, 32), "prev": rand_bytes(rng, 32), "tail": rand_bytes(rng, rng.randrange(3)),
+               "xs": [rand_bytes(rng, 32) for _ in range(n)]}
+
+
+contract("buidl.compactfilter.CFHeadersMessage.parse#anylen", props=("C19", "C18"),
+         ghost={"ft": ("int", 0, 255), "stop": H32, "prev": H32, "tail": "bytes"},
+         params={"cls": ("const_cls", "buidl.compactfilter.CFHeadersMessage")},
+         setup=_CfheadersSetup(), args=["cls", "s"], bcat_unit=True,
+         ensures=["returns()", "result.filter_type == ft", "result.stop_hash == stop", "result.previous_filter_header == prev",
+                  "result.filter_hashes == xs", "s.read() == tail",
+                  # the constructor's running header: hash256(filter_hash_i || header_{i-1}) folded over the whole list
+                  "result.last_header == spec.listser.hash_chain(prev, xs, len(xs))"],
+         invariants={1: {"inv": ["stream_is(s, spec.listser.concat_from(xs, _k) + tail)", "filter_hashes == xs[:_k]"], "index": "_k"}},
+         gen=_gen_cfh_any)
+
+# the constructor loop (CFHeadersMessage.__init__), inlined by the contract above
+contract("buidl.compactfilter.CFHeadersMessage.__init__#anylen", props=("C18",),
+         params={"self": obj("buidl.compactfilter.CFHeadersMessage"), "filter_type": ("int", 0, 255), "stop_hash": H32,
+                 "previous_filter_header": H32, "filter_hashes": symlist.symvalues("cfhash", "bytes:32", max_len=2**32)},
+         ensures=["returns()", "self.last_header == spec.listser.hash_chain(previous_filter_header, filter_hashes, len(filter_hashes))"],
+         invariants={1: {"inv": ["current == spec.listser.hash_chain(self.previous_filter_header, self.filter_hashes, _k)"],
+                         "types": {"current": "bytes"}}},
+         gen=lambda rng, tier: ({"self": {"__class__": "buidl.compactfilter.CFHeadersMessage", "fields": {}}, "filter_type": 0,
+                                 "stop_hash": rand_bytes(rng, 32), "previous_filter_header": rand_bytes(rng, 32),
+                                 "filter_hashes": [rand_bytes(rng, 32) for _ in range(n)]} for n in (0, 1, 2, 5, 300)))
